@@ -4144,3 +4144,123 @@ def do2(m, run):
     run.ob('DO2.degree-operations-on-recorder-curves', '%s :: %d (degree, count) cases' % (fi.key, n), not bad, 'every Bezier piece gets its helper result, the new degree and a x (d+1), b x (d+1)' if not bad else
            'degree %d, %s: %s   [%d of %d cases]' % (bad[0][0][0], 'elevation by %d' % bad[0][0][1] if bad[0][0][1] > 0 else 'reduction', bad[0][1], len(bad), n),
            'geomdl/operations.py:%d in %s' % (fi.node.lineno, fi.key))
+
+
+# ====================================================================================== C13 / C12: transpose through the real setters
+def tp2(m, run, rule='TP2.transpose-through-the-setters'):
+    """TP2: operations.transpose interpreted (in place) on an abstract surface whose own property setters are interpreted too (degree,
+    2-D net, knot vectors with their validation): for nets where one direction has fewer points than the other direction's degree + 1
+    (3 x 6 with degrees 2, 4 and 2 x 4 with degrees 1, 3) no setter rejects an intermediate state, and afterwards degrees, sizes and knot
+    vectors are exchanged and the point at (u, v) of the new net is the old point at (v, u)"""
+    fi = m.func('operations.transpose')
+    for degs, sizes in (((2, 4), (3, 6)), ((1, 3), (2, 4)), ((2, 2), (3, 4))):
+        record = []
+        obj = abstract_shape('Surface', 2, degs, sizes, False, record)
+        ranks = [[0] * (p + 1) + list(range(1, n - p)) + [n - p] * (p + 1) for p, n in zip(degs, sizes)]
+        kv0 = [[Ord(r) for r in rk] for rk in ranks]
+        obj._a['_knot_vector'] = [list(k) for k in kv0]
+        su, sv = sizes
+        flat = pts(su * sv, 3, labelled=True)
+        obj._a['_control_points'] = flat
+        obj._a['_control_points2D'] = [[flat[v_ + sv * u_] for v_ in range(sv)] for u_ in range(su)]
+        obj._a['__iter__'] = [obj]
+        obj._a['_iter_index'] = 0
+        sk = SK(m, dict(STD_ABSTRACTED))
+        key = 'operations.transpose :: %d x %d net, degrees %s' % (su, sv, degs)
+        why = None
+        try:
+            sk.call(fi, [obj], {'inplace': True})
+            a = obj._a
+            if list(a['_degree']) != [degs[1], degs[0]]:
+                why = 'degrees end as %s, expected %s' % (list(a['_degree']), [degs[1], degs[0]])
+            elif list(a['_control_points_size']) != [sv, su]:
+                why = 'sizes end as %s, expected %s' % (list(a['_control_points_size']), [sv, su])
+            elif [[k.rank for k in kv] for kv in a['_knot_vector']] != [ranks[1], ranks[0]]:
+                why = 'the knot vectors are not exchanged'
+            else:
+                cp = a['_control_points']
+                for u_ in range(sv):
+                    for v_ in range(su):
+                        f = footprint(cp[v_ + su * u_]) if v_ + su * u_ < len(cp) else None
+                        want = u_ + sv * v_
+                        if f != frozenset([want]):
+                            why = 'the point at (u, v) = (%d, %d) of the transposed net is the old flat index %s, expected the old point at (v, u), flat index %d' % (u_, v_, sorted(f) if f else f, want)
+                            break
+                    if why:
+                        break
+        except Violation as v:
+            why = ('%s %s' % (v.msg, v.where())) + (' - a setter rejects an intermediate state of the transposition although the surface is valid before and after' if v.rule == 'RAISE' else '')
+        except Unsupported as ex:
+            raise AnalysisError('%s: interpreter met an unsupported construct: %s' % (key, ex))
+        run.ob(rule, key, why is None, 'degrees, sizes, knot vectors exchanged; new (u, v) = old (v, u); no setter objects on the way' if why is None else why, 'geomdl/operations.py:%d in %s' % (fi.node.lineno, fi.key))
+
+
+# ====================================================================================== C13: sweeping through the real accessors
+def sw2(m, run, rule='SW2.sweep-keeps-weights-and-definition'):
+    """SW2: sweeping.sweep_vector interpreted on abstract curves (B-spline and rational, the real accessors and __deepcopy__ of the classes
+    interpreted, coordinates exact) with the constructors replaced by recorders: the two sections handed to construct_surface are the
+    input and a shape of the same class, degree and knot vector whose control point i is the input's point i moved by the vector - for a
+    rational curve with the same weight, i.e. homogeneous ((x + vx) w, (y + vy) w, w)"""
+    from .skel import Sym
+    from .poly import Poly
+    fi = m.func('sweeping.sweep_vector')
+    for mod in ('BSpline', 'NURBS'):
+        rat = mod == 'NURBS'
+        n, p = 4, 2
+        hd = 3 if rat else 2
+        P = [[Poly.atom('P%d_%d' % (i, c)) for c in range(hd)] for i in range(n)]          # homogeneous (xw, yw, w) when rational
+        obj = abstract_shape('Curve', 1, (p,), (n,), False, [])
+        obj.__dict__['_cls'] = (mod, 'Curve')
+        obj._a.update(_control_points=[[Sym(x) for x in row] for row in P], _dimension=hd, _rational=rat, _cache={'ctrlpts': [], 'weights': []}, _name='c', _opt_data={},
+                      _geometry_type='curve', _id=0, _iter_index=0, _idt={}, _vis_component=None, _span_func=None, _insert_knot_func=None, _remove_knot_func=None)
+        obj._a['_tsl_component'] = None
+        kranks = [0] * (p + 1) + list(range(1, n - p)) + [n - p] * (p + 1)
+        obj._a['_knot_vector'] = [[Ord(r) for r in kranks]]
+        got = []
+        ab = dict(STD_ABSTRACTED)
+        ab[('construct', 'construct_surface')] = Py(lambda sk, node, direction, *sections, **k: got.append((direction, sections, k)) or 'surface', 'construct_surface')
+        ab[('construct', 'construct_volume')] = Py(lambda sk, node, direction, *sections, **k: got.append((direction, sections, k)) or 'volume', 'construct_volume')
+        ab[('knotvector', 'normalize')] = Py(lambda sk, node, kv, *a, **k: [Ord(x.rank) for x in kv], 'knotvector.normalize')      # order-preserving
+        sk = SK(m, ab)
+        sk.exact = True
+        sk.follow_deepcopy = True
+        sk.construct = True
+        vec = [Sym('v0'), Sym('v1')]
+        key = 'sweeping.sweep_vector :: %s.Curve' % mod
+        why = None
+        try:
+            sk.call(fi, [obj, vec], {})
+            if len(got) != 1 or len(got[0][1]) != 2:
+                why = 'construct_surface is not called once with two sections'
+            else:
+                a_, b_ = got[0][1]
+                if a_ is not obj:
+                    why = 'the first section is not the input curve'
+                elif not isinstance(b_, Bag) or b_ is obj or b_._cls != obj._cls:
+                    why = 'the second section is not a new shape of the class of the input'
+                elif list(b_._a.get('_degree', [])) != [p] or [getattr(k, 'rank', None) for k in b_._a['_knot_vector'][0]] != kranks:
+                    why = 'the second section does not have the degree / knot vector of the input'
+                else:
+                    cp = b_._a['_control_points']
+                    if len(cp) != n:
+                        why = 'the second section has %d control points' % len(cp)
+                    for i in range(n):
+                        if why:
+                            break
+                        for c in range(hd):
+                            if rat:
+                                w = P[i][2]
+                                want = Sym(P[i][c] + Poly.atom('v%d' % c) * w) if c < 2 else Sym(w)
+                            else:
+                                want = Sym(P[i][c] + Poly.atom('v%d' % c))
+                            s = _as_sym(cp[i][c]) if len(cp[i]) > c else None
+                            if s is None or not s.same(want):
+                                why = 'control point %d of the swept section has %s in slot %d, expected %r%s' % (
+                                    i, repr(cp[i][c])[:80] if len(cp[i]) > c else 'nothing', c, want, ' (the weights of the input are lost)' if rat else '')
+                                break
+        except Violation as v:
+            why = '%s %s' % (v.msg, v.where())
+        except Unsupported as ex:
+            raise AnalysisError('%s: interpreter met an unsupported construct: %s' % (key, ex))
+        run.ob(rule, key, why is None, 'second section = input moved by the vector, same class / degree / knots / weights' if why is None else why,
+               'geomdl/sweeping.py:%d in %s' % (fi.node.lineno, fi.key))
